@@ -1,5 +1,6 @@
 """C25 — references read settled state and run in declaration order (partial: the ordering constraints a reference creates reach the scheduler)."""
 import mir
+from framework import fn_key
 import p_C18
 import p_C19
 import p_C23
@@ -27,6 +28,7 @@ def run(ctx):
     # on the Hydro side the access groups come from AccessCounter::next_group: a `&mut` access must be alone in its group
     import p_C41
     p_C41.access_isolation_rule(ctx, rid="C25.accessiso")
+    mainbuf_rule(ctx, c)
     R_E = ctx.rule("C25.enemies", "access-group pairs and reference (producer, borrower) pairs are handed to the merger as no-merge pairs", floor=1)
     p_C18.enemies_rule(ctx, c, fsu, R_E)
     # the access-group pairs computed by find_access_group_ordering reach find_subgraph_unionfind (caller wiring)
@@ -85,3 +87,48 @@ def _derives(b, local, target, depth=0):
         if "p" in rv and _derives(b, mir.pl_local(rv["p"]), target, depth + 1):
             return True
     return False
+
+
+def mainbuf_rule(ctx, c):
+    """A `#name` reference must read the buffer the same-tick producers write (the handoff's main buffer). Tick-boundary handoffs are double-buffered: the back buffer holds the
+    *previous* tick's items and is only for the pipe consumer's drain. The function that resolves references into tokens (`helper_resolve_singletons`) must therefore never
+    reach `hoff_back_ident`, directly or through helpers of DfirGraph."""
+    R = ctx.rule("C25.mainbuf", "reference resolution (helper_resolve_singletons) names only the handoff's main buffer: no call path from it reaches hoff_back_ident", floor=1)
+    roots = [b for n, b in c.bodies.items() if n.endswith("::helper_resolve_singletons")]
+    if not roots:
+        ctx.anchor_missing(R, "DfirGraph::helper_resolve_singletons")
+        return
+    back = [n for n in c.bodies if n.endswith("::hoff_back_ident")]
+    if not back:
+        ctx.anchor_missing(R, "DfirGraph::hoff_back_ident")
+        return
+    for b in roots:
+        key = "dfir_lang|" + fn_key(c, b)
+        seen = set()
+        frontier = [(b.def_path, [b.def_path])]
+        hit = None
+        ncalls = 0
+        while frontier and hit is None:
+            d, path = frontier.pop()
+            if d in seen or len(path) > 5:
+                continue
+            seen.add(d)
+            bodies = [c.bodies[d]] + [cb for n, cb in c.bodies.items() if n.startswith(d + "::{closure")]
+            for body in bodies:
+                for bb, t in body.calls():
+                    f = t.get("f") or {}
+                    callee = f.get("res") or f.get("def")
+                    if not callee:
+                        continue
+                    ncalls += 1
+                    if callee.endswith("::hoff_back_ident"):
+                        hit = (path + [callee], body.loc(bb))
+                        break
+                    if callee in c.bodies and "meta_graph" in callee and callee not in seen:
+                        frontier.append((callee, path + [callee]))
+                if hit:
+                    break
+        ctx.inst(R, key, sites=ncalls, sample={"functions_followed": len(seen), "uses_main_buffer": any((t.get("f") or {}).get("name") == "hoff_buf_ident" for _bb, t in b.calls())})
+        if hit:
+            ctx.violation(R, key + "|reads-back-buffer", "a `#name` reference can be resolved to the handoff's *back* buffer (path: %s): for a tick-boundary handoff that is the previous tick's "
+                          "content, not what the same-tick producers wrote" % " -> ".join(x.split("::")[-1] for x in hit[0]), hit[1])
